@@ -327,3 +327,74 @@ impl<A> Display for DFA<StateIdx, A> {
         Ok(())
     }
 }
+
+#[cfg(lexgen_verif)]
+impl crate::verif::VerifVal for StateIdx {
+    fn vv(&self) -> String {
+        format!("t{}", self.0)
+    }
+}
+
+#[cfg(lexgen_verif)]
+impl StateIdx {
+    pub fn verif_usize(&self) -> usize {
+        self.0
+    }
+}
+
+#[cfg(lexgen_verif)]
+pub fn verif_accepting<A: crate::verif::VerifVal>(accepting: &[AcceptingState<A>]) -> String {
+    let mut s = String::new();
+    for (i, acc) in accepting.iter().enumerate() {
+        if i != 0 {
+            s.push(',');
+        }
+        s.push_str(&acc.value.vv());
+        if let Some(ctx) = acc.right_ctx {
+            s.push('@');
+            s.push_str(&ctx.as_usize().to_string());
+        }
+    }
+    if s.is_empty() {
+        s.push('-');
+    }
+    s
+}
+
+#[cfg(lexgen_verif)]
+impl<T: crate::verif::VerifVal, A: crate::verif::VerifVal> DFA<T, A> {
+    /// One line per state and per transition; char transitions sorted by code point.
+    pub fn verif_dump(&self) -> String {
+        use crate::verif::sorted_join;
+        use std::fmt::Write as _;
+        let mut s = String::new();
+        writeln!(s, "DFA {}", self.states.len()).unwrap();
+        for (idx, state) in self.states.iter().enumerate() {
+            writeln!(
+                s,
+                "S {} init={} bt={} acc={} preds={}",
+                idx,
+                state.initial as u8,
+                state.backtrack as u8,
+                verif_accepting(&state.accepting),
+                sorted_join(state.predecessors.iter().map(|x| x.0)),
+            )
+            .unwrap();
+            let mut chars: Vec<(&char, &T)> = state.char_transitions.iter().collect();
+            chars.sort_by_key(|(c, _)| **c);
+            for (c, next) in chars {
+                writeln!(s, "c {} {}", *c as u32, next.vv()).unwrap();
+            }
+            for range in state.range_transitions.iter() {
+                writeln!(s, "r {} {} {}", range.start, range.end, range.value.vv()).unwrap();
+            }
+            if let Some(next) = &state.any_transition {
+                writeln!(s, "a {}", next.vv()).unwrap();
+            }
+            if let Some(next) = &state.end_of_input_transition {
+                writeln!(s, "z {}", next.vv()).unwrap();
+            }
+        }
+        s
+    }
+}
